@@ -301,6 +301,14 @@ func gateTable(c *an.Ctx, s *sched, rule string, cancelColumn bool) {
 			}
 			continue
 		}
+		// a dependency that finished acceptably blocks nothing
+		if satisfied {
+			for _, v := range r.verdict {
+				if v == "false" || v == "true" {
+					c.Bad(rule, key+":blocks", g.Pos(), "dependency status %s: the gate makes the stage wait (result %s) although the dependency finished acceptably — a skipped or allowed-to-fail dependency must block nothing", r.name, v)
+				}
+			}
+		}
 		// cancel column: exact set of writes on the waiting stage
 		mustCancel := r.status == C || (r.status == E && !r.af)
 		_ = W
@@ -381,11 +389,12 @@ func gateTable(c *an.Ctx, s *sched, rule string, cancelColumn bool) {
 		"the gate's loop does not range over To(<stage>.Name) of the gated stage: "+an.Prov(op))
 }
 
-// launchGuard checks C01.2.
+// launchGuard checks C01.2 (and C03.1): on the scheduling trace a stage is
+// launched only in the rows where it was seen Waiting, its condition allowed
+// it and the gate said true, with Add and Waiting→Running before the go
+// statement; and the goroutine gets its stage bound at go time.
 func launchGuard(c *an.Ctx, s *sched, rule string) {
-	f := s.launchFn
-	key := an.Short(f) + ":launch"
-	// stage identity: the stage handed to go, to the gate, to ReadStatus and to UpdateStatus(Running)
+	key := an.Short(s.launchFn) + ":launch"
 	var goStage ssa.Value
 	for _, a := range s.launch.Call.Args {
 		if an.TypeIs(a.Type(), "pkg/scheduler", "Stage") {
@@ -393,22 +402,12 @@ func launchGuard(c *an.Ctx, s *sched, rule string) {
 		}
 	}
 	if goStage == nil {
-		// captured variable?
 		if fv, ok := s.bodyStage.(*ssa.FreeVar); ok {
 			c.Bad(rule, key, s.launch.Pos(), "the stage goroutine captures the loop variable %q instead of receiving the stage as an argument at go time (go.mod says go 1.16: one variable shared by all iterations)", fv.Name())
 		} else {
 			c.Und(rule, key, s.launch.Pos(), "cannot find the stage handed to the goroutine")
 		}
 		return
-	}
-	if !an.SameValue(goStage, s.loopStage) {
-		c.Bad(rule, key, s.launch.Pos(), "the stage passed to the goroutine (%s) is not the stage of the current loop iteration", an.Prov(goStage))
-		return
-	}
-	// captured loop cells in the body
-	for _, fv := range s.body.FreeVars {
-		b := fv
-		_ = b
 	}
 	for _, fn := range an.WithAnon(s.body) {
 		for _, fv := range fn.FreeVars {
@@ -420,96 +419,8 @@ func launchGuard(c *an.Ctx, s *sched, rule string) {
 			}
 		}
 	}
-	c.OK(rule, key+":identity", s.launch.Pos(), "goroutine receives the iteration's stage as an argument bound at go time")
-
-	guards := an.Guards(s.launch.Block())
-	// (i) status == Waiting
-	W := s.status["Waiting"]
-	okW := false
-	for _, g := range guards {
-		// find the status atom inside the condition
-		var atom ssa.Value
-		var walk func(v ssa.Value)
-		walk = func(v ssa.Value) {
-			switch x := v.(type) {
-			case *ssa.BinOp:
-				walk(x.X)
-				walk(x.Y)
-			case *ssa.UnOp:
-				walk(x.X)
-			case *ssa.Call:
-				if cc, ok := an.IsCallTo(x, fnReadStatus); ok && an.SameValue(cc.Args[0], s.loopStage) {
-					atom = x
-				}
-			case *ssa.Convert:
-				walk(x.X)
-			case *ssa.ChangeType:
-				walk(x.X)
-			}
-		}
-		walk(g.Cond)
-		if atom == nil {
-			continue
-		}
-		// the values of status consistent with the guard outcome
-		var consistent []int64
-		for _, v := range s.statusDomain() {
-			st := evalWith(c.P, g.Cond, map[ssa.Value]an.AVal{atom: an.AInt(v)})
-			if b, ok := st.IsBool(); !ok || b == g.Outcome {
-				consistent = append(consistent, v)
-			}
-		}
-		if len(consistent) == 1 && consistent[0] == W {
-			okW = true
-		}
-	}
-	c.Check(okW, rule, key+":waiting", s.launch.Pos(),
-		"launch is dominated by ReadStatus(stage)==Waiting on the same stage",
-		"launch is not dominated by a test that the stage's status is exactly Waiting")
-	// (ii) gate returned true on the same stage
-	okGate := false
-	if s.gateCall == nil {
-		c.Und(rule, key+":gate", s.launch.Pos(), "the gate %s is not called in the function that launches stages (%s): whether its true result guards the launch cannot be established by dominance", an.Short(s.gate), an.Short(s.launchFn))
-		return
-	}
-	if s.gateCall != nil {
-		sameStage := false
-		for _, a := range s.gateCall.Call.Args {
-			if an.TypeIs(a.Type(), "pkg/scheduler", "Stage") && an.SameValue(a, s.loopStage) {
-				sameStage = true
-			}
-		}
-		for _, g := range guards {
-			uses := false
-			var walk func(v ssa.Value)
-			walk = func(v ssa.Value) {
-				if v == ssa.Value(s.gateCall) {
-					uses = true
-				}
-				switch x := v.(type) {
-				case *ssa.BinOp:
-					walk(x.X)
-					walk(x.Y)
-				case *ssa.UnOp:
-					walk(x.X)
-				}
-			}
-			walk(g.Cond)
-			if !uses {
-				continue
-			}
-			t := evalWith(c.P, g.Cond, map[ssa.Value]an.AVal{s.gateCall: an.ABool(true)})
-			fv := evalWith(c.P, g.Cond, map[ssa.Value]an.AVal{s.gateCall: an.ABool(false)})
-			tb, ok1 := t.IsBool()
-			fb, ok2 := fv.IsBool()
-			if ok1 && ok2 && tb == g.Outcome && fb != g.Outcome && sameStage {
-				okGate = true
-			}
-		}
-	}
-	c.Check(okGate, rule, key+":gate", s.launch.Pos(),
-		"launch is dominated by the true result of the gate called on the same stage",
-		"launch is not dominated by the gate returning true for the stage that is launched")
+	c.OK(rule, key+":identity", s.launch.Pos(), "goroutine receives its stage as an argument bound at go time")
+	checkSchedTable(c, s, rule, map[string]bool{"launch": true})
 }
 
 // evalWith evaluates v under the given assumptions.
